@@ -35,6 +35,111 @@ def operand_derived(expr):
     return any(isinstance(x, (ast.Name, ast.Attribute, ast.Subscript, ast.Call)) for x in ast.walk(expr))
 
 
+def range_rule(ctx, R2):
+    """Range table of check_imm_size / struct formats / cast table (shared with C03: a byte string whose disp8/imm8/rel8 lies on the edge of the range must be offered back)."""
+    X = x86model(ctx)
+    arch, E, afs = X.arch, X.env, X.afs
+    cis = arch.func('check_imm_size')
+    env = dict((k, v) for k, v in E.items())
+    env.update(int_class_objs(ctx))
+    ev = Evaluator(env)
+    # i, j, k meanings
+    first = cis.body[0]
+    if not (isinstance(first, ast.Assign) and u(first.value).startswith('imm_to_generic(')):
+        raise AnalysisError('check_imm_size no longer starts with i, j, k = imm_to_generic(imm)')
+    names = [t.id for t in first.targets[0].elts]
+    itg = arch.func('imm_to_generic')
+    rets = [n for n in ast.walk(itg) if isinstance(n, ast.Return)]
+    generic = u(rets[-1].value)
+    if generic.replace(' ', '') != '(int(imm),int32(uint32(imm)),int16(uint16(imm)))':
+        R2.violation('imm_to_generic', 'imm_to_generic', 'imm_to_generic no longer returns (int(imm), int32(uint32(imm)), int16(uint16(imm))): %s' % generic, where(arch, itg))
+    else:
+        R2.ok('imm_to_generic', sample='i = int(imm), j = 32-bit signed wrap, k = 16-bit signed wrap')
+    var_kind = dict(zip(names, ('plain', 'wrap32', 'wrap16')))
+    n_br = 0
+    for n in ast.walk(cis):
+        if not isinstance(n, ast.If):
+            continue
+        tests = n.test.values if isinstance(n.test, ast.BoolOp) and isinstance(n.test.op, ast.And) else [n.test]
+        size_tok = None
+        rng = None
+        for t in tests:
+            if isinstance(t, ast.Compare) and u(t.left) == 'size' and isinstance(t.ops[0], ast.Eq):
+                try:
+                    size_tok = ev.ev(t.comparators[0])
+                except NotConst:
+                    pass
+            if isinstance(t, ast.Compare) and len(t.ops) == 2 and isinstance(t.comparators[0], ast.Name):
+                try:
+                    lo, hi = ev.ev(t.left), ev.ev(t.comparators[1])
+                except NotConst as e:
+                    raise AnalysisError('check_imm_size bound not evaluable: %s' % e)
+                rng = (lo, type(t.ops[0]).__name__, t.comparators[0].id, type(t.ops[1]).__name__, hi)
+        if size_tok is None or rng is None:
+            continue
+        n_br += 1
+        lo, op1, var, op2, hi = rng
+        bits, signed = WIDTH_OF_TOKEN[size_tok]
+        ret = [s for s in n.body if isinstance(s, ast.Return)]
+        inst = 'check_imm_size[%s via %s]' % (size_tok, var)
+        problems = []
+        lo_incl = lo if op1 == 'LtE' else lo + 1
+        hi_excl = hi if op2 == 'Lt' else hi + 1
+        kind = var_kind.get(var)
+        if signed:
+            if (lo_incl, hi_excl) != (-(1 << (bits - 1)), 1 << (bits - 1)):
+                problems.append('signed %d-bit range is [%d, %d), expected [%d, %d)' % (bits, lo_incl, hi_excl, -(1 << (bits - 1)), 1 << (bits - 1)))
+            if kind == 'plain':
+                problems.append('signed size tested on the unwrapped value')
+        else:
+            if hi_excl != (1 << bits):
+                problems.append('unsigned %d-bit upper bound is %d, expected %d' % (bits, hi_excl, 1 << bits))
+            if lo_incl not in (0, -(1 << (bits - 1)), -(1 << bits)):
+                problems.append('unsigned %d-bit lower bound is %d' % (bits, lo_incl))
+            if kind != 'plain':
+                problems.append('unsigned size tested on a wrapped value')
+        if ret:
+            rv = ret[0].value
+            inner = rv
+            cls_ = u(inner.func) if isinstance(inner, ast.Call) else None
+            want = ('int%d' if signed else 'uint%d') % bits
+            if cls_ != want:
+                problems.append('returns %s, expected a %s' % (u(rv), want))
+        else:
+            problems.append('branch does not return the cast value')
+        if problems:
+            R2.violation(inst, 'range:%s:%s' % (size_tok, '; '.join(problems)), 'check_imm_size for %s: %s' % (size_tok, '; '.join(problems)), where(arch, n))
+        else:
+            R2.ok(inst, sample='%s: %d <= %s < %d -> %s' % (size_tok, lo_incl, var, hi_excl, u(ret[0].value)))
+    if n_br < 7:
+        raise AnalysisError('only %d interval branches found in check_imm_size' % n_br)
+    # the size-membership guard
+    ds = afs.dict_size
+    for tok, (bits, signed) in WIDTH_OF_TOKEN.items():
+        f = ds.get(tok)
+        want = {8: 'b', 16: 'h', 32: 'i'}[bits]
+        want = want if signed else want.upper()
+        if f == want:
+            R2.ok('dict_size[%s]' % tok, sample='dict_size[%s] = %r' % (tok, f))
+        else:
+            R2.violation('dict_size[%s]' % tok, 'dict_size:%s' % tok, 'struct format of %s is %r, expected %r' % (tok, f, want), where(X.reg, X.reg.method('afs_desc', '__init__')))
+    t2i = E.get('tab_size2int')
+    if not isinstance(t2i, dict):
+        # values are classes: evaluate keys/values textually
+        node = arch.assign_value('tab_size2int')
+        pairs = dict((Evaluator(dict(E, x86_afs=afs)).ev(k), u(v)) for k, v in zip(node.keys, node.values))
+    else:
+        pairs = dict((k, getattr(v, '_name', str(v))) for k, v in t2i.items())
+    for tok, (bits, signed) in WIDTH_OF_TOKEN.items():
+        want = ('int%d' if signed else 'uint%d') % bits
+        got = pairs.get(tok)
+        if got is not None and want in str(got):
+            R2.ok('tab_size2int[%s]' % tok, sample='tab_size2int[%s] = %s' % (tok, want))
+        else:
+            R2.violation('tab_size2int[%s]' % tok, 'tab_size2int:%s' % tok, 'tab_size2int[%s] is %s, expected %s' % (tok, got, want), where(arch, arch.assigns['tab_size2int'][-1]))
+
+
+
 def run(ctx, report):
     X = x86model(ctx)
     arch, E, afs = X.arch, X.env, X.afs
@@ -359,104 +464,12 @@ def run(ctx, report):
     report.analysed['fd_afs_entries'] = n_ent
 
     R2 = report.rule('C02.D2', 'range table of check_imm_size and struct formats are the width semantics', floor=10)
-    cis = arch.func('check_imm_size')
-    env = dict((k, v) for k, v in E.items())
-    env.update(int_class_objs(ctx))
-    ev = Evaluator(env)
-    # i, j, k meanings
-    first = cis.body[0]
-    if not (isinstance(first, ast.Assign) and u(first.value).startswith('imm_to_generic(')):
-        raise AnalysisError('check_imm_size no longer starts with i, j, k = imm_to_generic(imm)')
-    names = [t.id for t in first.targets[0].elts]
-    itg = arch.func('imm_to_generic')
-    rets = [n for n in ast.walk(itg) if isinstance(n, ast.Return)]
-    generic = u(rets[-1].value)
-    if generic.replace(' ', '') != '(int(imm),int32(uint32(imm)),int16(uint16(imm)))':
-        R2.violation('imm_to_generic', 'imm_to_generic', 'imm_to_generic no longer returns (int(imm), int32(uint32(imm)), int16(uint16(imm))): %s' % generic, where(arch, itg))
-    else:
-        R2.ok('imm_to_generic', sample='i = int(imm), j = 32-bit signed wrap, k = 16-bit signed wrap')
-    var_kind = dict(zip(names, ('plain', 'wrap32', 'wrap16')))
-    n_br = 0
-    for n in ast.walk(cis):
-        if not isinstance(n, ast.If):
-            continue
-        tests = n.test.values if isinstance(n.test, ast.BoolOp) and isinstance(n.test.op, ast.And) else [n.test]
-        size_tok = None
-        rng = None
-        for t in tests:
-            if isinstance(t, ast.Compare) and u(t.left) == 'size' and isinstance(t.ops[0], ast.Eq):
-                try:
-                    size_tok = ev.ev(t.comparators[0])
-                except NotConst:
-                    pass
-            if isinstance(t, ast.Compare) and len(t.ops) == 2 and isinstance(t.comparators[0], ast.Name):
-                try:
-                    lo, hi = ev.ev(t.left), ev.ev(t.comparators[1])
-                except NotConst as e:
-                    raise AnalysisError('check_imm_size bound not evaluable: %s' % e)
-                rng = (lo, type(t.ops[0]).__name__, t.comparators[0].id, type(t.ops[1]).__name__, hi)
-        if size_tok is None or rng is None:
-            continue
-        n_br += 1
-        lo, op1, var, op2, hi = rng
-        bits, signed = WIDTH_OF_TOKEN[size_tok]
-        ret = [s for s in n.body if isinstance(s, ast.Return)]
-        inst = 'check_imm_size[%s via %s]' % (size_tok, var)
-        problems = []
-        lo_incl = lo if op1 == 'LtE' else lo + 1
-        hi_excl = hi if op2 == 'Lt' else hi + 1
-        kind = var_kind.get(var)
-        if signed:
-            if (lo_incl, hi_excl) != (-(1 << (bits - 1)), 1 << (bits - 1)):
-                problems.append('signed %d-bit range is [%d, %d), expected [%d, %d)' % (bits, lo_incl, hi_excl, -(1 << (bits - 1)), 1 << (bits - 1)))
-            if kind == 'plain':
-                problems.append('signed size tested on the unwrapped value')
-        else:
-            if hi_excl != (1 << bits):
-                problems.append('unsigned %d-bit upper bound is %d, expected %d' % (bits, hi_excl, 1 << bits))
-            if lo_incl not in (0, -(1 << (bits - 1)), -(1 << bits)):
-                problems.append('unsigned %d-bit lower bound is %d' % (bits, lo_incl))
-            if kind != 'plain':
-                problems.append('unsigned size tested on a wrapped value')
-        if ret:
-            rv = ret[0].value
-            inner = rv
-            cls_ = u(inner.func) if isinstance(inner, ast.Call) else None
-            want = ('int%d' if signed else 'uint%d') % bits
-            if cls_ != want:
-                problems.append('returns %s, expected a %s' % (u(rv), want))
-        else:
-            problems.append('branch does not return the cast value')
-        if problems:
-            R2.violation(inst, 'range:%s:%s' % (size_tok, '; '.join(problems)), 'check_imm_size for %s: %s' % (size_tok, '; '.join(problems)), where(arch, n))
-        else:
-            R2.ok(inst, sample='%s: %d <= %s < %d -> %s' % (size_tok, lo_incl, var, hi_excl, u(ret[0].value)))
-    if n_br < 7:
-        raise AnalysisError('only %d interval branches found in check_imm_size' % n_br)
-    # the size-membership guard
-    ds = afs.dict_size
-    for tok, (bits, signed) in WIDTH_OF_TOKEN.items():
-        f = ds.get(tok)
-        want = {8: 'b', 16: 'h', 32: 'i'}[bits]
-        want = want if signed else want.upper()
-        if f == want:
-            R2.ok('dict_size[%s]' % tok, sample='dict_size[%s] = %r' % (tok, f))
-        else:
-            R2.violation('dict_size[%s]' % tok, 'dict_size:%s' % tok, 'struct format of %s is %r, expected %r' % (tok, f, want), where(X.reg, X.reg.method('afs_desc', '__init__')))
-    t2i = E.get('tab_size2int')
-    if not isinstance(t2i, dict):
-        # values are classes: evaluate keys/values textually
-        node = arch.assign_value('tab_size2int')
-        pairs = dict((Evaluator(dict(E, x86_afs=afs)).ev(k), u(v)) for k, v in zip(node.keys, node.values))
-    else:
-        pairs = dict((k, getattr(v, '_name', str(v))) for k, v in t2i.items())
-    for tok, (bits, signed) in WIDTH_OF_TOKEN.items():
-        want = ('int%d' if signed else 'uint%d') % bits
-        got = pairs.get(tok)
-        if got is not None and want in str(got):
-            R2.ok('tab_size2int[%s]' % tok, sample='tab_size2int[%s] = %s' % (tok, want))
-        else:
-            R2.violation('tab_size2int[%s]' % tok, 'tab_size2int:%s' % tok, 'tab_size2int[%s] is %s, expected %s' % (tok, got, want), where(arch, arch.assigns['tab_size2int'][-1]))
+    range_rule(ctx, R2)
+
+
+    R6 = report.rule('C02.D6', 'a displacement written before the brackets is assembled with the sign it is written with', floor=4)
+    from .c19 import disp_outside_rule
+    disp_outside_rule(ctx, R6)
 
 
 def imm_accumulate_rule(R4, att, pa):
